@@ -9,8 +9,15 @@ sys.path.insert(0, V)
 from rules import core
 facts_dir = sys.argv[1] if len(sys.argv) > 1 else None
 if facts_dir is None:
-    print('usage: gen_signatures.py <facts-default dir of the clean tree>'); sys.exit(2)
+    print('usage: gen_signatures.py <facts-default dir of the clean tree> [facts dirs of the other cfg universes ...]'); sys.exit(2)
 F = core.Facts(facts_dir, canonical_args=False)
+ids = set()
+for d in sys.argv[1:]:
+    G = F if d == facts_dir else core.Facts(d, canonical_args=False)
+    ids |= {f.id for f in G.fn_list if f.kind != 'closure' and f.crate.startswith('iceoryx2')}
+with open(os.path.join(V, 'rules', 'function_ids.json'), 'w') as fh:
+    json.dump(sorted(ids), fh, separators=(',', ':'))
+print('%d function ids (the set of product functions the rules were written against; anything else is a new helper and is inlined)' % len(ids))
 out = {}
 for f in F.fn_list:
     if f.kind == 'closure' or f.nargs < 2 or not f.crate.startswith('iceoryx2'):
